@@ -152,6 +152,11 @@ impl GenSource {
     }
 
     fn gen_valid_raw_name(&mut self, cur: Option<&Name>) -> Vec<u8> {
+        // edge arguments: names the call may accept or refuse (either is fine); if it accepts,
+        // the result is judged like any other successful operation
+        if self.rng.chance(1, 16) {
+            return self.gen_bad_raw_name();
+        }
         let rng = &mut self.rng;
         let n = match rng.below(10) {
             0 => Name::root(),
